@@ -81,9 +81,11 @@ Record Inv (s : state) (k : list frame) : Prop := {
 
 (** C01's precondition at the moment library drop logic starts: no live object
     records more adoptions of a target than its value holds handles to it *)
-Definition disc (h : heap) : Prop :=
-  forall a b p, nth_error h a = Some b -> value b = Some p ->
+Definition disc_at (h : heap) (a : oid) : Prop :=
+  forall b p, nth_error h a = Some b -> value b = Some p ->
     forall y, lget h a (y, Fwd) <= total (sw_strong y) (slots p).
+
+Definition disc (h : heap) : Prop := forall a, disc_at h a.
 
 (** ** executable mirror *)
 Definition Nall (n : nat) (f : nat -> bool) : bool := forallb f (seq 0 n).
